@@ -25,6 +25,10 @@ func runARing(r *verifsim.Run) {
 		f.Status.FrameCount = -1000 - i
 	}
 	n := r.Range(1, 6*capN+4)
+	queryEvery := r.OneOf(1, 1, 2, 3, capN, 2*capN+1)
+	if queryEvery < 1 {
+		queryEvery = 1
+	}
 	tag := 0
 	var ops []byte
 	written := map[int]bool{} // positions written since reset
@@ -133,8 +137,12 @@ func runARing(r *verifsim.Run) {
 		if m.MarkPos >= 0 && m.MarkPos == m.Pos-m.Cap+1 && m.Pos >= m.Cap {
 			r.Probe("mark-at-last-retained-slot")
 		}
-		if !check(step) {
-			return
+		// queries are not made after every operation in every run: a cached view that is only
+		// refreshed by a query must still be right when the next query comes many moves later
+		if step == n-1 || r.Draw(queryEvery) == 0 {
+			if !check(step) {
+				return
+			}
 		}
 	}
 	r.Set("capacity", capN)
